@@ -124,6 +124,56 @@ def run(tier):
                 q = r2.randrange(len(b))
                 b[p:p] = b[q:q + r2.randint(1, 40)]
         jobs.append(("mutated", bytes(b), r2.choice(accepted), f"mutation {i}"))
+    # (e) streams of mixed origin: a plain diff -u history followed by a combined-diff or submodule history (or the other
+    # way round), one hostile line injected; the state of one source meets the lines of another
+    covdu, _ = stream.cover_histories(pairs=False, cfg="Cover_DiffU_bare", module="Cover_DiffU")
+    covcc, _ = stream.cover_histories(pairs=False, cfg="Cover_Stream_cc")
+    covsub, _ = stream.cover_histories(pairs=False, cfg="Cover_Stream_sub")
+    extra_hostile = [b" \xc3\xa9x", b"+\xe4\xb8\x96", b"+++ b/zzz", b"--- a/zzz", b"-Subproject commit " + b"0123456789" * 4,
+                     b"+Subproject commit " + b"0123456789" * 4, b"Only in a: b", b"++<<<<<<< HEAD", b"++>>>>>>> x", b"@@@ -1,1 -1,1 +1,1 @@@"]
+    for i in range(300 if tier == "quick" else 6000):
+        r2 = random.Random(core.seed() * 9176 + i)
+        parts = [r2.choice(covdu), r2.choice(covcc if i % 2 else covsub)]
+        if r2.random() < 0.3:
+            parts.reverse()
+        lines = []
+        for h in parts:
+            lines += [t.encode() for t in gitskin.concretise(h, payload=lambda k, c: f"tokZ{k}Z é w")[1]]
+        hl = r2.choice(extra_hostile + HOSTILE[:40])
+        lines.insert(r2.randrange(len(lines) + 1), hl)
+        if r2.random() < 0.4:
+            lines = lines[:r2.randrange(1, len(lines) + 1)]       # the producer stops anywhere
+        jobs.append(("mixed", b"\n".join(lines) + b"\n", r2.choice(accepted), f"mixed {i}"))
+    # (f) git blame streams in which git has coloured some lines itself (blame.coloring), keys repeating
+    for i in range(120 if tier == "quick" else 2500):
+        r2 = random.Random(core.seed() * 4241 + i)
+        keys = [("ea82f2d0", "Dan Davison"), ("bb82f2d0", "Xan Davison"), ("^c2257cf", "\u4e16\u754c Other")]
+        lines = []
+        for j in range(r2.randint(1, 7)):
+            c, a = r2.choice(keys) if not lines or r2.random() < 0.6 else last
+            last = (c, a)
+            t = f"{c} ({a:<16} 2021-08-2{j % 9} 18:20:19 -0700 {120 + j}) code {j}"
+            if r2.random() < 0.4:
+                t = f"\x1b[{r2.choice(['31', '1;34', '38;5;9', '2'])}m{t}\x1b[m"
+            lines.append(t.encode())
+        if i % 8 == 0:     # a key that has a colour of ours, then a line in git's colours, then the key again; a coloured line repeated plain
+            mk = lambda c, a, j, col: (f"\x1b[31m{c} ({a:<16} 2021-08-22 18:20:19 -0700 {j}) x\x1b[m" if col else f"{c} ({a:<16} 2021-08-22 18:20:19 -0700 {j}) x").encode()
+            lines = [mk(*keys[0], 1, False), mk(*keys[1], 2, True), mk(*keys[0], 3, False), mk(*keys[2], 4, True), mk(*keys[2], 5, False)]
+        jobs.append(("blame", b"\n".join(lines) + b"\n", r2.choice(accepted), f"blame {i}"))
+    # (g) rg --json records with extreme numbers and awkward text
+    import json as _json
+    NUMS = [0, 1, 2, 2 ** 31, 2 ** 32, 2 ** 63, 2 ** 64 - 1]
+    TXT = ["fn x(\n", "\tfn x(\n", "\t\t\u4e16\u754c fn\n", "", "\n", "x" * 300 + "\n", "a\u0301\tb\n"]
+    for i in range(150 if tier == "quick" else 3000):
+        r2 = random.Random(core.seed() * 733 + i)
+        recs = []
+        for j in range(r2.randint(1, 4)):
+            subs = [{"match": {"text": "fn"}, "start": r2.choice(NUMS), "end": r2.choice(NUMS)} for _ in range(r2.randint(0, 2))]
+            recs.append(_json.dumps({"type": r2.choice(["match", "context", "begin", "end"]),
+                                     "data": {"path": {"text": r2.choice(["src/cli.rs", "", "\u4e16.rs"])}, "lines": {"text": r2.choice(TXT)},
+                                              "line_number": r2.choice(NUMS + [None]), "absolute_offset": r2.choice(NUMS),
+                                              "submatches": subs}}))
+        jobs.append(("rg-json", ("\n".join(recs) + "\n").encode(), r2.choice(accepted), f"rg-json {i}"))
     # (d) arbitrary bytes
     for i in range(150 if tier == "quick" else 3000):
         r2 = random.Random(core.seed() * 31 + i)
